@@ -114,11 +114,18 @@ def seed_edits(patch_path: str) -> dict[str, str]:
         shutil.rmtree(tmp, ignore_errors=True)
 
 
+def seed_patch(sd: str) -> str:
+    """The patch of a kept seeded change: as delivered (patch.diff), or, when a later repair of /repo
+    touched the same lines, its re-based form (patch.current.diff; same change, refreshed context)."""
+    cur = os.path.join(sd, "patch.current.diff")
+    return cur if os.path.exists(cur) else os.path.join(sd, "patch.diff")
+
+
 def run_seed_for(pid: str, sid: str) -> dict:
     sd = os.path.join(VERIF, "seeded", sid)
     res = {"name": "seeded/" + sid, "property": pid, "rule": "*"}
     try:
-        edits = seed_edits(os.path.join(sd, "patch.diff"))
+        edits = seed_edits(seed_patch(sd))
     except (RuntimeError, OSError) as e:
         return {**res, "status": "skipped", "why": str(e)}
     tmp = tempfile.mkdtemp(prefix="sa_selftest_")
